@@ -2241,6 +2241,14 @@ VARIANTS = [
     V("job tokens selected by a comprehension instead of filter(lambda)", FM_FILE, _REC,
       "job_tokens = list(filter(lambda t: isinstance(t, JobToken), mapper.token_instances.values()))",
       "job_tokens = [t for t in mapper.token_instances.values() if isinstance(t, JobToken)]", None),
+    V("restore selection extracted into a module-level helper (benign round 7)", FM_FILE, _REC, _ON_TOKENS, "_sf_sel(mapper, step)", None,
+      append="def _sf_sel(mapper, step):\n    return " + _ON_TOKENS + "\n"),
+    V("extracted restore selection keeps the available tokens", FM_FILE, _REC, _ON_TOKENS, "_sf_sel(mapper, step)", "R4",
+      append="def _sf_sel(mapper, step):\n    return " + _ON_TOKENS.replace("if not mapper.token_availability", "if mapper.token_availability") + "\n"),
+    V("extracted restore selection has no availability filter", FM_FILE, _REC, _ON_TOKENS, "_sf_sel(mapper, step)", "R4",
+      append="def _sf_sel(mapper, step):\n    return " + _ON_TOKENS.replace(" if not mapper.token_availability[token_id]", "") + "\n"),
+    V("extracted restore selection no longer skips unmapped ports", FM_FILE, _REC, _ON_TOKENS, "_sf_sel(mapper, step)", "R4",
+      append="def _sf_sel(mapper, step):\n    return " + _ON_TOKENS.replace(" if port.name in mapper.port_tokens.keys()}", "}") + "\n"),
     V("aliased availability map: restore receives the available tokens", FM_FILE, _REC, _RESTORE_LOOP,
       _ALIASES + _RESTORE_LOOP_ALIASED.replace("if not token_availability[token_id]", "if token_availability[token_id]"), "R4"),
     V("aliased maps: the local named token_availability is another mapping", FM_FILE, _REC, _RESTORE_LOOP,
